@@ -14,6 +14,11 @@
 //	route seq       a dynamic value that stays reachable — a field of an any-object, or a host import declared
 //	                `any`, `[any]`, `?any`, `{ a: any }`, `[[any]]`, … — crossed twice in a row by `as` / annotated
 //	                lets into T and a one-step variation of T; the source is read again afterwards (seq.go)
+//	route alias     the target type is written as a type alias (`dyn as A`, `let x: [A] = dyn`) which is declared
+//	                at several nesting levels — module / imported, function body, nested blocks of every kind —
+//	                with different right hand sides; crossings before and after the declarations and after inner
+//	                blocks have been closed; each one judged against the declaration a lexical-scope reference
+//	                model says is in force there (alias.go)
 //	route host-arg  runtime.VM.SpawnSync of `fn id(x: T) -> T { probe(x); x }` with the value as argument
 //	route host-args SpawnSync / SpawnAsync / in-language `spawn` of a function with 2-3 parameters of different
 //	                types and pairwise different arguments (hostargs.go)
@@ -51,6 +56,7 @@ func (c12) Info(tier string) fw.Info {
 			"contains conforming and non-conforming pairs); route letx additionally per leaf form {get,arrow,group,block,if,match,try} (quick: one seed-chosen form per backend, two per type; thorough: three per backend, six per type) " +
 			"for every type with an option at the top or directly inside a top-level list/object literal, pushing the pairs that agree with T outside their Some(..) contents, in a local let, as the base of a cast (`(<composite>) as T`, explicit; quick: the types alternate between the back ends) and (constant initialisers, typed values only; quick: a quarter of the types) in a global let; " +
 			"route seq per (backend, type T, source): source host = a builtin import whose declared type is T with `any` at a seed-chosen depth d (d=0 `any`, d=1 `[any]`/`?any`/`{a: any}`, ...) and whose value agrees with that declaration, source field (option types) = `ao.get(k)`/`ao->k` of an any-object; the same source is crossed twice (each crossing `as` or an annotated let, seed-chosen) into T and a seed-chosen one-step variation of T (other scalar, U<->?U, object->any-object at one position below the `any`), in either order, with a seed-chosen sample (quick 3, thorough 16 values) of the candidates of both types balanced over {conforms to both, one, none}; each crossing is judged on its own and the source is read again after both; " +
+			"route alias per (backend, type T): a program in which the alias name A is declared at a seed-chosen non-empty subset of {module (own or imported from a second module), body of main, a block in main, a block inside that block} (block kinds {block,if,else,for,loop,while,closure,match,try}, seed-chosen) standing for T and seed-chosen one-step variations of T (or of one child of T, the crossing then says `[A]`, `?A`, `{ a: A, .. }`), neighbouring declarations differing, optionally a second alias `type B = ..A..` next to one declaration; up to 4 crossings (`dyn as ..` or annotated let, seed-chosen) out of: in a helper function that sees the module only, before and after each level's declaration, after an inner block has ended; values (quick 3, thorough 12) of the host import `dyn: any` balanced over {the declarations disagree, all admit, none admits}; each crossing is judged against the type its name stands for according to a lexical-scope resolver (innermost enclosing declaration that precedes the crossing); " +
 			"route api also reads the operand again after every DeepCast; " +
 			"route host-args per type T0: a function with 2-3 parameters (T0 and seed-chosen types of the universe) invoked (quick 4, thorough 24 times) through SpawnSync, SpawnAsync or the in-language spawn with pairwise different arguments, every second invocation with exactly one non-conforming argument at a seed-chosen position. non-trivial = the case observed at least one admitted and at least one rejected/refused pair; " +
 			"distinct = distinct (route, lib, type, pair list)",
@@ -63,6 +69,7 @@ func (c12) Info(tier string) fw.Info {
 			"route seq / route api: a cast does not modify the dynamic value it is applied to — the value read again after the crossing (any-object field, host value, DeepCast operand) is identical to what it was, whether the crossing admitted or rejected it; the second crossing is judged against the reference predicates for the ORIGINAL value",
 			"route seq, source host: the host is honest — the provided value has the declared type outside its `any` parts; nothing is assumed about the parts declared `any`",
 			"route host-args: refusal as on route host-arg (no callee instruction executes); an admitted call binds parameter i to the value validated for argument i: it has type Ti, equals argument i if that already had type Ti and its permitted conversion otherwise; an invocation whose arguments all conform but need a conversion may be refused (no explicit cast at the host boundary)",
+			"route alias: a type alias is lexically scoped — at a crossing the name stands for the declaration of the innermost enclosing scope (block, function body, module incl. type imports) that precedes it; an alias whose right hand side mentions another alias is bound where it is declared; the type T of the property is that structural type",
 			"route letx: the statically typed skeleton of the initialiser (list/object literal, non-option fields) agrees with T, the dynamically typed content sits inside Some(..) at option positions; a rejection without path by the interpreter is the same finding as on route let (signature route `let`)",
 		},
 		CaseTimeoutS: 120,
@@ -116,7 +123,7 @@ type pairSpec struct {
 }
 
 type payload struct {
-	Route string  `json:"route"` // api | as | let | letget | letx | host-arg | host-ret
+	Route string  `json:"route"` // api | as | let | letget | letx | seq | alias | host-arg | host-args | host-ret
 	Lib   string  `json:"lib"`   // vm | tree
 	T     vu.Type `json:"t"`
 	// Gen mode (Pairs == nil): the worker enumerates valuni.Candidates(T, Width) x modes, leaves out
@@ -439,6 +446,19 @@ func (c12) Cases(tier string, seed uint64) []fw.Case {
 		add(payload{Route: "host-args", Lib: "vm", T: t, Width: width, Avoid: avoid, Max: argsMax, Seed: rs.Next()})
 	}
 
+	// Route alias (alias.go): the target type is named by a type alias declared at several nesting levels.
+	// Own generator.
+	rl := fw.NewRng(seed ^ 0xC12A11)
+	aliasMax := 3
+	if thorough {
+		aliasMax = 12
+	}
+	for _, t := range types {
+		for _, lib := range []string{"vm", "tree"} {
+			add(payload{Route: "alias", Lib: lib, T: t, Width: width, Avoid: avoid, Max: aliasMax, Seed: rl.Next()})
+		}
+	}
+
 	// Poisoned workloads: for every open finding a few dozen cases that contain ONLY its construct.
 	type pw struct {
 		construct string
@@ -512,7 +532,7 @@ func (c12) Run(c fw.Case) (res fw.Result) {
 	var p payload
 	fw.Decode(c, &p)
 	pairs := p.Pairs
-	if pairs == nil && p.Route != "seq" && p.Route != "host-args" {
+	if pairs == nil && p.Route != "seq" && p.Route != "host-args" && p.Route != "alias" {
 		pairs = enumerate(p)
 		pairs = sample(pairs, p.T, p.Max, p.Seed)
 	}
@@ -535,6 +555,24 @@ func (c12) Run(c fw.Case) (res fw.Result) {
 			j.seq(pl, v)
 		}
 		j.cov("kinds-" + pl.Kinds[0] + "-" + pl.Kinds[1])
+	case "alias":
+		pl := planAlias(p.T, p.Seed)
+		for _, v := range aliasValues(p, pl) {
+			pairs = append(pairs, pairSpec{V: v})
+			j.alias(pl, v)
+		}
+		j.cov("levels-" + pl.Levels)
+		for _, b := range pl.Blocks {
+			j.cov("block-" + b)
+		}
+		if pl.Import {
+			j.cov("imported")
+		}
+		if pl.Hole >= 0 {
+			j.cov("names-child")
+		} else {
+			j.cov("names-whole")
+		}
 	case "host-args":
 		pl := planArgs(p)
 		for _, c := range pl.Calls {
@@ -549,7 +587,7 @@ func (c12) Run(c fw.Case) (res fw.Result) {
 		res.Evals = 1
 	}
 	res.Hash = fw.HashOf(p.Route+p.Stmt+p.Form, p.Lib, p.T.Src(), pairs)
-	if p.Route == "seq" || p.Route == "host-args" {
+	if p.Route == "seq" || p.Route == "host-args" || p.Route == "alias" {
 		// second type, statement kinds, parameter types and entries are functions of the seed
 		res.Hash = fw.HashOf(p.Route+p.Source, p.Lib, p.T.Src(), pairs, p.Seed)
 	}
